@@ -2368,3 +2368,204 @@ Theorem step_RoInv r m r' c :
   ro_option (r_read_only r') = ro_option (r_read_only r) /\
   (RoInv (r_read_only r) -> RoInv (r_read_only r')).
 Proof. intros H. apply step_read_origin in H. destruct H as ((_ & _ & A & B) & _). auto. Qed.
+
+(* ================================================================== *)
+(* 14. post_conf_change: the re-check after a membership change        *)
+(* ================================================================== *)
+
+(* middle frame: like [lf] but the commit index may grow *)
+Definition mf (r r' : raft) : Prop :=
+  committed (r_log r) <= committed (r_log r') /\ r_read_only r' = r_read_only r /\
+  r_read_states r' = r_read_states r /\ r_term r' = r_term r /\ r_id r' = r_id r /\
+  r_state r' = r_state r /\ t_conf (r_prs r') = t_conf (r_prs r) /\
+  rir (r_msgs r') = rir (r_msgs r).
+
+Lemma mf_refl r : mf r r.
+Proof. unfold mf. repeat split; auto. lia. Qed.
+
+Lemma mf_trans a b c : mf a b -> mf b c -> mf a c.
+Proof. unfold mf. intros (A1 & A) (B1 & B). split; [lia|]. intuition congruence. Qed.
+
+Lemma lf_mf r r' : lf r r' -> mf r r'.
+Proof. intros (A & B & C0 & D & E & F & G & _ & I). unfold mf. rewrite A. repeat split; auto. lia. Qed.
+
+Lemma mf_fx r r' : mf r r' -> fx r r'.
+Proof. intros (A & B & C0 & _ & D & _ & _ & E). unfold fx. auto 10. Qed.
+
+Lemma maybe_commit_mf r r' b : maybe_commit r = Ok (r', b) -> mf r r'.
+Proof.
+  unfold maybe_commit. intros H. inv_bind H. destruct x as [l' b'].
+  apply log_maybe_commit_le in Hx.
+  destruct b'.
+  - destruct (get_pr r (r_id r)); [|discriminate]. inversion H; subst. unfold mf. cbn. repeat split; auto.
+  - inversion H; subst. unfold mf. cbn. repeat split; auto.
+Qed.
+
+(* the read-index half of post_conf_change *)
+Definition pcc_reads (r2 : raft) : Res raft :=
+  match ro_last_pending_request_ctx (r_read_only r2) with
+  | None => Ok r2
+  | Some ctx =>
+      let '(ro', acks) := ro_recv_ack (r_read_only r2) (r_id r2) ctx in
+      let r2' := r2 <| r_read_only := ro' |> in
+      match acks with
+      | Some a =>
+          if prs_has_quorum (r_prs r2') a then
+            z <- ro_advance (r_read_only r2') ctx ;;
+            let '(ro2, rss) := z in
+            respond_reads (r2' <| r_read_only := ro2 |>) rss
+          else Ok r2'
+      | None => Ok r2'
+      end
+  end.
+
+(* the leader re-checks the LAST pending request against the (new) configuration, counting
+   only its own ack in addition to those recorded; a quorum releases the whole queue *)
+Lemma pcc_reads_spec r2 r3 :
+  pcc_reads r2 = Ok r3 ->
+  gx r2 r3 /\ r_term r3 = r_term r2 /\ r_state r3 = r_state r2 /\
+  r_prs r3 = r_prs r2 /\ r_lead_transferee r3 = r_lead_transferee r2 /\
+  exists served,
+    r_read_states r3 = r_read_states r2 ++ rr_states (r_id r2) served /\
+    r_msgs r3 = r_msgs r2 ++ rr_msgs r2 served /\
+    (served = [] \/
+     exists ctx rs,
+       ro_last_pending_request_ctx (r_read_only r2) = Some ctx /\
+       ro_find (ro_pending (r_read_only r2)) ctx = Some rs /\
+       prs_has_quorum (r_prs r2) (IdSet.insert (r_id r2) (ris_acks rs)) = true /\
+       ro_advance (fst (ro_recv_ack (r_read_only r2) (r_id r2) ctx)) ctx = Ok (r_read_only r3, served)).
+Proof.
+  unfold pcc_reads. intros H.
+  assert (Hnone : forall ro', ro_option ro' = ro_option (r_read_only r2) ->
+            (RoInv (r_read_only r2) -> RoInv ro') ->
+            r3 = r2 <| r_read_only := ro' |> ->
+    gx r2 r3 /\ r_term r3 = r_term r2 /\ r_state r3 = r_state r2 /\
+    r_prs r3 = r_prs r2 /\ r_lead_transferee r3 = r_lead_transferee r2 /\
+    exists served,
+      r_read_states r3 = r_read_states r2 ++ rr_states (r_id r2) served /\
+      r_msgs r3 = r_msgs r2 ++ rr_msgs r2 served /\
+      (served = [] \/
+       exists ctx rs,
+         ro_last_pending_request_ctx (r_read_only r2) = Some ctx /\
+         ro_find (ro_pending (r_read_only r2)) ctx = Some rs /\
+         prs_has_quorum (r_prs r2) (IdSet.insert (r_id r2) (ris_acks rs)) = true /\
+         ro_advance (fst (ro_recv_ack (r_read_only r2) (r_id r2) ctx)) ctx = Ok (r_read_only r3, served))).
+  { intros ro' Ho Hi ->. split; [unfold gx; cbn; split; [lia|]; auto|].
+    repeat (split; [reflexivity|]). exists []. cbn. rewrite !app_nil_r. auto. }
+  destruct (ro_last_pending_request_ctx (r_read_only r2)) as [ctx|] eqn:El.
+  2:{ inversion H; subst. apply (Hnone (r_read_only r3)); auto. destruct r3; reflexivity. }
+  destruct (ro_recv_ack_spec (r_read_only r2) (r_id r2) ctx) as (Hs & Ho & _).
+  pose proof (ro_recv_ack_RoInv (r_read_only r2) (r_id r2) ctx) as Hi.
+  destruct (ro_recv_ack (r_read_only r2) (r_id r2) ctx) as [ro' acks] eqn:Era. cbn [fst snd] in *.
+  destruct (ro_find (ro_pending (r_read_only r2)) ctx) as [rs|] eqn:Ef; cbn [option_map] in Hs; subst acks.
+  2:{ inversion H; subst. apply (Hnone ro'); auto. }
+  change (r_prs (r2 <| r_read_only := ro' |>)) with (r_prs r2) in H.
+  destruct (prs_has_quorum (r_prs r2) (IdSet.insert (r_id r2) (ris_acks rs))) eqn:Eq.
+  2:{ inversion H; subst. apply (Hnone ro'); auto. }
+  inv_bind H. destruct x as [ro2 rss].
+  change (r_read_only (r2 <| r_read_only := ro' |>)) with ro' in Hx.
+  apply respond_reads_exact in H. subst r3. cbn -[rr_states rr_msgs].
+  split.
+  { unfold gx. cbn -[rr_states rr_msgs]. split; [lia|]. split; [reflexivity|]. split.
+    - apply ro_advance_sub in Hx. destruct Hx as (A & _). congruence.
+    - intros Hinv. eapply ro_advance_RoInv; [exact Hx|]. auto. }
+  repeat (split; [reflexivity|]). exists rss. split; [reflexivity|]. split; [reflexivity|].
+  right. exists ctx, rs. split; [first [exact El|reflexivity]|].
+  split; [first [exact Ef|reflexivity]|]. split; [exact Eq|]. rewrite Era. exact Hx.
+Qed.
+
+Lemma post_conf_change_eq r :
+  post_conf_change r =
+  let cs := to_conf_state (conf_of r) in
+  let is_voter := voters_contains (conf_of r) (r_id r) in
+  let r := r <| r_promotable := is_voter |> in
+  if negb is_voter && is_leader r then Ok (r, cs) else
+  if negb (is_leader r) || match cs_voters cs with [] => true | _ => false end then Ok (r, cs) else
+  x <- maybe_commit r ;;
+  let '(r1, b) := x in
+  r2 <- (if b then bcast_append r1
+         else for_each_peer (pids (t_progress (r_prs r1))) (r_id r1)
+                (fun r id => match get_pr r id with
+                             | None => Panic site_pr_unwrap
+                             | Some pr =>
+                                 y <- maybe_send_append r id pr false ;;
+                                 let '(r', pr', _) := y in Ok (put_pr r' id pr')
+                             end) r1) ;;
+  r3 <- pcc_reads r2 ;;
+  let r4 := match r_lead_transferee r3 with
+            | Some e => if negb (voters_contains (conf_of r3) e)
+                        then r3 <| r_lead_transferee := None |> else r3
+            | None => r3
+            end in
+  Ok (r4, cs).
+Proof. reflexivity. Qed.
+
+(* C08 (quorum-shrinking membership change): post_conf_change serves pending reads only if
+   the acks recorded for the LAST pending request, plus the leader itself, are a quorum of the
+   configuration now in force; what is served is again the recorded index of each request *)
+Theorem post_conf_change_reads r r' cs :
+  post_conf_change r = Ok (r', cs) ->
+  gx r r' /\
+  exists served,
+    r_read_states r' = r_read_states r ++ rr_states (r_id r) served /\
+    rir (r_msgs r') = rir (r_msgs r) ++ rr_msgs r served /\
+    (served = [] \/
+     (is_leader r = true /\
+      exists ctx rs,
+        ro_last_pending_request_ctx (r_read_only r) = Some ctx /\
+        ro_find (ro_pending (r_read_only r)) ctx = Some rs /\
+        prs_has_quorum (r_prs r) (IdSet.insert (r_id r) (ris_acks rs)) = true /\
+        ro_advance (fst (ro_recv_ack (r_read_only r) (r_id r) ctx)) ctx = Ok (r_read_only r', served))).
+Proof.
+  rewrite post_conf_change_eq. cbv zeta. intros H.
+  set (r0 := r <| r_promotable := voters_contains (conf_of r) (r_id r) |>) in *.
+  assert (H00 : mf r r0) by (unfold r0, mf; cbn; repeat split; auto; lia).
+  assert (Hnone : forall ra, mf r ra -> gx r ra /\
+    exists served,
+      r_read_states ra = r_read_states r ++ rr_states (r_id r) served /\
+      rir (r_msgs ra) = rir (r_msgs r) ++ rr_msgs r served /\
+      (served = [] \/
+       (is_leader r = true /\
+        exists ctx rs,
+          ro_last_pending_request_ctx (r_read_only r) = Some ctx /\
+          ro_find (ro_pending (r_read_only r)) ctx = Some rs /\
+          prs_has_quorum (r_prs r) (IdSet.insert (r_id r) (ris_acks rs)) = true /\
+          ro_advance (fst (ro_recv_ack (r_read_only r) (r_id r) ctx)) ctx = Ok (r_read_only ra, served)))).
+  { intros ra Hm. split; [apply fx_gx; apply mf_fx; exact Hm|].
+    destruct Hm as (_ & _ & A & _ & _ & _ & _ & B). exists []. cbn. rewrite !app_nil_r. auto. }
+  cif H. { inversion H; subst. apply Hnone. exact H00. }
+  cif H. { inversion H; subst. apply Hnone. exact H00. }
+  assert (Hlead : is_leader r = true).
+  { apply orb_false_elim in E0. destruct E0 as [E0 _]. apply negb_false_iff in E0. exact E0. }
+  inv_bind H. destruct x as [r1 b]. apply maybe_commit_mf in Hx.
+  inv_bind H. inv_bind H. inversion H; subst. clear H.
+  assert (H12 : mf r1 x).
+  { apply lf_mf. destruct b; [eapply bcast_append_lf; eassumption|].
+    revert Hx0. apply for_each_peer_lf. intros ra id ra' Hf.
+    destruct (get_pr ra id); [|discriminate]. inv_bind Hf. destruct x1 as [[rb pb] bb].
+    inversion Hf; subst. eapply lf_trans; [eapply maybe_send_append_lf; eassumption|apply put_pr_lf]. }
+  assert (H02 : mf r x) by exact (mf_trans _ _ _ H00 (mf_trans _ _ _ Hx H12)).
+  apply pcc_reads_spec in Hx1.
+  destruct Hx1 as (Hg & Ht3 & Hs3 & Hp3 & Hl3 & served & Hrs & Hms & Hcase).
+  set (r4 := match r_lead_transferee x0 with
+             | Some e => if negb (voters_contains (conf_of x0) e) then x0 <| r_lead_transferee := None |> else x0
+             | None => x0 end).
+  assert (H34 : r_read_only r4 = r_read_only x0 /\ r_read_states r4 = r_read_states x0 /\
+                r_msgs r4 = r_msgs x0 /\ r_log r4 = r_log x0 /\ r_id r4 = r_id x0).
+  { unfold r4. destruct (r_lead_transferee x0); [|auto 10].
+    destruct (negb (voters_contains (conf_of x0) n)); auto 10. }
+  destruct H34 as (A4 & B4 & C4 & D4 & E4).
+  pose proof H02 as H02'.
+  destruct H02 as (Hc2 & Hro2 & Hrs2 & Ht2 & Hi2 & Hst2 & Hcf2 & Hrir2).
+  split.
+  { eapply gx_trans; [apply fx_gx; apply mf_fx; exact H02'|].
+    eapply gx_trans; [exact Hg|]. unfold gx. rewrite A4, D4, E4.
+    split; [lia|]. split; [reflexivity|]. split; [reflexivity|auto]. }
+  exists served. rewrite B4, C4, Hrs, Hms, Hrs2, Hi2, rir_app, Hrir2, rr_msgs_all_rir,
+    (rr_msgs_ext x r served Hi2 Ht2).
+  split; [reflexivity|]. split; [reflexivity|].
+  destruct Hcase as [-> |(ctx & rs & Hl & Hf & Hq & Hadv)]; [left; reflexivity|].
+  right. split; [exact Hlead|]. exists ctx, rs. rewrite A4. rewrite Hro2, Hi2 in *.
+  split; [exact Hl|]. split; [exact Hf|]. split; [|exact Hadv].
+  rewrite <- (prs_has_quorum_conf _ _ _ Hcf2). exact Hq.
+Qed.
